@@ -336,6 +336,7 @@ package frugal
 
 // The server buffers each reply in a fresh buffer limited to the NATS message size and publishes
 // exactly when there is something to send.
+//@ immutable lib.FBaseProcessorFunction.writeMu
 //@ immutable lib.frameWrapper.reply, lib.frameWrapper.frameBytes, lib.frameWrapper.ephemeralProperties
 // One frame: fresh input and output buffers, one Process call, and the reply is published to the frame's
 // own reply subject exactly when the processor left something in the output buffer (C14).
